@@ -153,12 +153,26 @@ def part_a(ctx, scratch, quick):
             elif shape == 1:
                 q = "select %s from .%s where size > 2 limit %d into %s" % (", ".join(cols), trav, r.range(1, 6), fmt)
             elif shape == 2:
-                q = "select count(*), sum(size), max(line_count), min(name) from .%s into %s" % (trav, fmt)
+                # MIN over a column that is empty for the entries that cannot be read: the empty cells do not count
+                q = "select count(*), sum(size), %s(line_count), min(name) from .%s into %s" % (r.choice(["max", "min", "min"]), trav, fmt)
             else:
                 q = "select %s from . depth %d%s into %s" % (", ".join(cols), r.range(1, 3), trav, fmt)
             ctx.case((t, "faulty", q))
             ctx.hist("shape", ["ordered", "limited", "aggregate", "depth"][shape])
             corr.run_case(ctx, faulty, [q], fmt=fmt, ncols=w if shape != 2 else 4, extra={"unlistable": fd, "unreadable": ff})
+        # MIN / MAX of a content column over the faulty tree = MIN / MAX over the per-row values the same tree shows
+        # (the rows that cannot be read show an empty cell, which does not count)
+        ql = "select line_count from .%s into list" % trav
+        qm = "select min(line_count), max(line_count) from .%s into list" % trav
+        rl = common.run_cli([ql], cwd=root, scratch=scratch, tz=healthy.tz, as_nobody=True)
+        rm = common.run_cli([qm], cwd=root, scratch=scratch, tz=healthy.tz, as_nobody=True)
+        ctx.case((t, "faulty", qm))
+        nums = [int(x) for x in rl["out"].split(b"\0")[:-1] if x.isdigit()]
+        gotm = rm["out"].split(b"\0")[:-1]
+        if nums and len(gotm) == 2 and gotm != [str(min(nums)).encode(), str(max(nums)).encode()]:
+            ctx.oracle_fail("MIN/MAX over a column with cells that are empty because of a read fault differ from the extremes of the readable cells",
+                            {"argv": [qm], "rows_argv": [ql], "tree": case0["tree"], "unlistable": fd, "unreadable": ff, "as": "uid 65534"},
+                            detail={"got": [g.decode() for g in gotm], "want": [min(nums), max(nums)]})
         qa = "select count(*), sum(size), max(size), min(name) from . where is_file = true into list"
         fa = common.run_cli([qa], cwd=root, scratch=scratch, tz=healthy.tz, as_nobody=True)
         if hrows is not None and "is_file" not in cols:
